@@ -599,10 +599,6 @@ def mon_msg(c):
 # ------------------------------------------------------------------ known-finding classes
 # predicates over the canonical trace of one connection
 
-def always(c):
-    return True
-
-
 def end_stream_bit_on_other_frame(c):
     """the server set flag bit 0x1 on a stream frame other than HEADERS and DATA (finding F65: the client
     takes it for END_STREAM)"""
@@ -611,13 +607,11 @@ def end_stream_bit_on_other_frame(c):
 
 
 CLASSES = {
-    "every-connection": always,
     "end-stream-bit-on-other-frame": end_stream_bit_on_other_frame,
 }
 
 # which violation kinds a class can explain
 CLASS_KINDS = {
-    "every-connection": {"enable-push-0-not-advertised"},
     "end-stream-bit-on-other-frame": {"success-without-response", "response-from-nowhere"},
 }
 
@@ -632,7 +626,7 @@ REGRESSION = {
     "C02": ["known/F36.ops"],
     "C11": ["known/F37.ops"],
     "C12": ["known/F36.ops"],
-    "C18": ["known/F09.ops"],
+    "C18": ["known/F09.ops", "known/F35c.ops"],
 }
 
 
